@@ -408,6 +408,25 @@ def case_repr(steps, rekey_at=None):
     return {"steps": [{"ptype": p, "payload": pl, "env": dict(env), "app_ok": ok} for (p, pl, env, _, ok) in steps]}
 
 
+def conn_state(ts, alive=True):
+    """Connection-layer state of a Transport that an unauthenticated peer must not be able to touch."""
+    def msg(x):
+        return None if x is None else (x.asbytes() if hasattr(x, "asbytes") else repr(x))
+    st = {"global_response": msg(getattr(ts, "global_response", None)),
+          "channels": sorted(c.get_id() for c in ts._channels.values()),
+          "channels_seen": sorted(getattr(ts, "channels_seen", {}) or []),
+          "channel_events": sorted(getattr(ts, "channel_events", {}) or []),
+          "accept_queue": len(ts.server_accepts),
+          "channel_counter": getattr(ts, "_channel_counter", None),
+          "forward_handlers": [getattr(ts, n, None) is not None for n in
+                               ("_forward_agent_handler", "_x11_handler", "_tcp_handler")],
+          "subsystems": sorted(getattr(ts, "subsystem_table", {}) or [])}
+    if alive:       # (when the run loop ended it stored its own reason there)
+        e = ts.saved_exception
+        st["saved_exception"] = None if e is None else "%s: %s" % (type(e).__name__, str(e)[:80])
+    return st
+
+
 def run_session(ctx, Session, hostkey, steps, stats, control=True, rekey_at=None):
     """Drive one real session; returns (canonical list, number of steps used) -- None when a timing problem
     was seen.  A session that got authenticated by chance stops before its first connection-layer packet
@@ -433,6 +452,7 @@ def run_session(ctx, Session, hostkey, steps, stats, control=True, rekey_at=None
                 sess.start_server_rekey()
                 stats["server_rekeys"] = stats.get("server_rekeys", 0) + 1
             in_kex = bool(sess.ts.in_kex)
+            state_before = conn_state(sess.ts)
             sess.send(ptype, payload, env, app_ok)
             if sess.hang:
                 return None
@@ -463,6 +483,10 @@ def run_session(ctx, Session, hostkey, steps, stats, control=True, rekey_at=None
                     bad = "the application was consulted (%s) before authentication" % apps[0][2]
                 elif chans or queue:
                     bad = "a channel was created / queued for accept() before authentication"
+                elif any(state_before.get(k) != v for k, v in conn_state(sess.ts, alive).items()):
+                    now = conn_state(sess.ts, alive)
+                    diff = {k: (state_before.get(k), v) for k, v in now.items() if state_before.get(k) != v}
+                    bad = "connection-layer state of the transport changed before authentication: %r" % (diff,)
                 elif authed:
                     bad = "a connection-layer message authenticated the client"
                 elif not alive and all(m[:1] == b"\x01" for m in sent):
@@ -712,6 +736,34 @@ def dialogue_loopback(ctx):
     return "%d histories" % n
 
 
+def gated_type_sessions(ctx, Session, hostkey, stats):
+    """Every connection-layer type 80..100 sent to an unauthenticated server with a payload its handler would act on
+    (answers to requests nobody made, traffic for channels nobody opened), before any auth attempt and after a failed
+    and a partial one.  Oracle only (run_session): no callback, no channel, no state change."""
+    base = {"res": 2, "gss": False, "mechok": True, "tok": 1, "micok": True, "kexctx": False, "banner": False}
+    payloads = {80: s_(b"tcpip-forward") + b"\x01" + s_(b"0.0.0.0") + struct.pack(">I", 2222),
+                81: struct.pack(">I", 4242), 82: b"",
+                90: s_(b"session") + struct.pack(">III", 9, 2 ** 21, 2 ** 15),
+                91: struct.pack(">IIII", 0, 5, 2 ** 21, 2 ** 15),
+                92: struct.pack(">II", 0, 2) + s_(b"Connect failed") + s_(b"en")}
+    for t in CHANNEL_TYPES:
+        payloads[t] = struct.pack(">I", 0) + {93: struct.pack(">I", 1000), 94: s_(b"data"), 95: struct.pack(">I", 1) + s_(b"err"),
+                                               98: s_(b"shell") + b"\x01"}.get(t, b"")
+    prefixes = [[], [(50, s_(b"alice") + s_(b"ssh-connection") + s_(b"password") + b"\x00" + s_(b"pw"), dict(base, res=2),
+                      ("PAuth", ("Msg50", b"alice", b"ssh-connection", ("BPassword", False))), True)],
+                [(50, s_(b"alice") + s_(b"ssh-connection") + s_(b"none"), dict(base, res=1),
+                  ("PAuth", ("Msg50", b"alice", b"ssh-connection", ("BNone",))), True)]]
+    for i, pre in enumerate(prefixes):
+        for t in sorted(payloads):
+            if i and t in CHANNEL_TYPES and t not in (94, 98):
+                continue
+            chanid = 9 if t == 90 else 0
+            steps = list(pre) + [(t, payloads[t], dict(base), ("PConn", t, chanid, True, True), True)]
+            if t in (80, 90):       # a refused request is followed by the answer types on the same transport
+                steps += [(x, payloads[x], dict(base), ("PConn", x, 0, True, True), True) for x in (92, 81)][:1 if t == 80 else 2]
+            run_session(ctx, Session, hostkey, steps, stats, True, None)
+
+
 def inkex_sessions(ctx, Session, hostkey, stats):
     """Deterministic: every connection-layer type right after the server started a key exchange, before any
     authentication and after a failed / partial one."""
@@ -775,6 +827,7 @@ def run(ctx):
                 ctx.sample({"steps": [repr(s[3]) for s in steps], "impl": canon[:80]})
         gss_swap_sessions(ctx, mk, hostkey, stats)
         inkex_sessions(ctx, mk, hostkey, stats)
+        gated_type_sessions(ctx, mk, hostkey, stats)
         for steps, canon in refusal_sessions(ctx, mk, hostkey, stats):
             cases.append((model_case(steps), canon))
             kept.append((steps, canon))
